@@ -53,8 +53,8 @@ Definition ho_ibb_serve_close_blocking_write_locks : nat := 0.
 Definition ho_ibb_serve_close_try_write_locks : nat := 1.
 Definition ho_ibb_serve_close_sets_abort : bool := true.
 Definition ho_ibb_serve_close_returns_error : bool := false.
-Definition ho_ibb_expect_cleanup_deletes : nat := 0.
-Definition ho_ibb_expect_cleanup_checks_owner : bool := false.
+Definition ho_ibb_expect_cleanup_deletes : nat := 1.
+Definition ho_ibb_expect_cleanup_checks_owner : bool := true.
 Definition ho_ibb_open_offer_gives_up_on_done : bool := true.
 Definition ho_ibb_responses_obtained : nat := 1.
 Definition ho_ibb_responses_closed_on_all_paths : nat := 1.
